@@ -74,7 +74,11 @@ def cases(draw):
 
 @st.composite
 def special_cases(draw):
-    which = draw(st.sampled_from(["bigmag", "bigmag", "wide"]))
+    which = draw(st.sampled_from(["bigmag", "bigmag", "wide", "parampow0", "parampow0"]))
+    if which == "parampow0":
+        env, recipe, order, pts = draw(gen.param_power_at_zero())
+        return {"env": env, "expr": recipe, "stratum": "general", "order": order, "vstratum": "perm", "points": pts, "config": "default",
+                "sense": draw(st.sampled_from(["minimize", "maximize"])), "newp": {"p": draw(st.sampled_from([2.0, 3.0]))}, "parampow0": True}
     env, recipe, order, pts = draw(gen.bigmag() if which == "bigmag" else gen.wide())
     return {"env": env, "expr": recipe, "stratum": which, "order": order, "vstratum": "perm" if which == "bigmag" else "decl", "points": pts,
             "config": "default", "sense": draw(st.sampled_from(["minimize", "maximize"])), "newp": {}, which: True}
